@@ -6,7 +6,9 @@ CONSTANTS
   CoefVals = {1, 3}
   MsgVals = {2}
   Kinds = {"ok", "bad", "stale"}
-  MaxArrivals = 3
+  MaxArrivals = 4
   MaxPerParty = 2
+  MaxInvalid = 4
+VIEW MCView
 INVARIANTS TypeOK C33_Cap C33_OnlyValidStored C33_SeedIffThreshold C33_SeedFunction
 CHECK_DEADLOCK FALSE
